@@ -166,7 +166,7 @@ def port_scheme_units():
         if not fn.endswith(".h"):
             continue
         txt = open(os.path.join(SRC, fn), errors="replace").read()
-        for m in re.finditer(r"void\s+(\w+)\s*\(\s*i_random\s*&\s*\w+,\s*event\s*&\s*\w+,\s*const\s+double\s+\w+,\s*double\s*&\s*\w+\)", txt):
+        for m in re.finditer(r"void\s+(\w+)\s*\(\s*i_random\s*&\s*\w+,\s*event\s*&\s*\w+,\s*(?:const\s+)?double\s+\w+,\s*double\s*&\s*\w+\)", txt):
             nuc.append((m.group(1), fn[:-2]))
         for m in re.finditer(r"void\s+(\w+low)\s*\(\s*i_random\s*&\s*\w+,\s*event\s*&\s*\w+,\s*const\s+int\s+\w+\)", txt):
             low.append((m.group(1), fn[:-2]))
